@@ -54,6 +54,7 @@ type verifConfChange struct {
 	Ready bool     `json:"ready"`
 	Snaps []string `json:"snaps"`
 	Down  bool     `json:"down"`
+	Done  []string `json:"done"` // snaps all of whose tasks in this (unready) change are ready
 }
 
 type verifConfSt struct {
@@ -163,14 +164,15 @@ func (s *verifConfSuite) project(c *C, same bool) verifConfSt {
 	}
 	ps.Changes = []verifConfChange{}
 	for _, chg := range s.chgs {
-		pc := verifConfChange{Kind: chg.Kind(), Ready: chg.IsReady(), Snaps: []string{}}
+		pc := verifConfChange{Kind: chg.Kind(), Ready: chg.IsReady(), Snaps: []string{}, Done: []string{}}
 		if pc.Ready != chg.Status().Ready() {
 			c.Fatalf("IsReady and Status().Ready() disagree for %s", chg.Kind())
 		}
 		if pc.Ready {
-			pc = verifConfChange{Kind: "done", Ready: true, Snaps: []string{}}
+			pc = verifConfChange{Kind: "done", Ready: true, Snaps: []string{}, Done: []string{}}
 		} else {
 			set := map[string]bool{}
+			pending := map[string]bool{}
 			for _, t := range chg.Tasks() {
 				names, err := snapstate.SnapsAffectedByTask(t)
 				c.Assert(err, IsNil)
@@ -180,12 +182,19 @@ func (s *verifConfSuite) project(c *C, same bool) verifConfSt {
 						sn = "?" + n
 					}
 					set[sn] = true
+					if !t.Status().Ready() {
+						pending[sn] = true
+					}
 				}
 			}
 			for n := range set {
 				pc.Snaps = append(pc.Snaps, n)
+				if !pending[n] {
+					pc.Done = append(pc.Done, n)
+				}
 			}
 			sort.Strings(pc.Snaps)
+			sort.Strings(pc.Done)
 			if chg.Kind() == "refresh-snap" || chg.Kind() == "revert-snap" {
 				down, err := snapstate.VerifConfChangeIsSnapdDowngrade(s.state, chg)
 				c.Assert(err, IsNil)
@@ -369,6 +378,62 @@ func (s *verifConfSuite) setupTasks(kind string, S []string) *state.TaskSet {
 	return ts
 }
 
+// partial finishes every task of chg that names snap sn (status st: Done / Undone / Error / Hold) provided the
+// change stays unready afterwards (another lane, or trailing tasks naming no snap, still to do). state locked.
+func (s *verifConfSuite) partial(c *C, idx int, sn string, st state.Status) bool {
+	chg := s.chgs[idx-1]
+	var mine []*state.Task
+	rest := 0
+	for _, t := range chg.Tasks() {
+		names, err := snapstate.SnapsAffectedByTask(t)
+		c.Assert(err, IsNil)
+		hit := false
+		for _, n := range names {
+			if verifConfSpec[n] == sn {
+				hit = true
+			}
+		}
+		if hit && !t.Status().Ready() {
+			mine = append(mine, t)
+		} else if !t.Status().Ready() {
+			rest++
+		}
+	}
+	if len(mine) == 0 || rest == 0 {
+		return false
+	}
+	for _, t := range mine {
+		t.SetStatus(st)
+	}
+	c.Assert(chg.IsReady(), Equals, false)
+	s.emit(c, "Partial", map[string]interface{}{"c": idx, "s": sn, "how": st.String()}, nil, true)
+	return true
+}
+
+// partialCandidates lists (change index, snap) with unfinished tasks naming the snap
+func (s *verifConfSuite) partialCandidates(c *C) [][2]interface{} {
+	var out [][2]interface{}
+	for _, idx := range s.live() {
+		seen := map[string]bool{}
+		for _, t := range s.chgs[idx-1].Tasks() {
+			if t.Status().Ready() {
+				continue
+			}
+			names, err := snapstate.SnapsAffectedByTask(t)
+			c.Assert(err, IsNil)
+			for _, n := range names {
+				if sn, ok := verifConfSpec[n]; ok && !seen[sn] {
+					seen[sn] = true
+					out = append(out, [2]interface{}{idx, sn})
+				}
+			}
+		}
+	}
+	return out
+}
+
+var verifConfReadyStatuses = []state.Status{state.DoneStatus, state.DoneStatus, state.UndoneStatus, state.ErrorStatus, state.HoldStatus}
+
 func verifConfPick(r *rand.Rand, l []string) string { return l[r.Intn(len(l))] }
 
 func verifConfEnvInt(name string, def int) int {
@@ -441,7 +506,17 @@ func (s *verifConfSuite) step(c *C, r *rand.Rand) {
 		}
 		s.emit(c, "Progress", map[string]interface{}{"c": i, "how": how}, nil, true)
 		return
-	case p < 20:
+	case p < 26:
+		// partial progress: one snap's lane of an in-progress change finishes, the change keeps running
+		pcs := s.partialCandidates(c)
+		r.Shuffle(len(pcs), func(i, j int) { pcs[i], pcs[j] = pcs[j], pcs[i] })
+		for _, pc := range pcs {
+			if s.partial(c, pc[0].(int), pc[1].(string), verifConfReadyStatuses[r.Intn(len(verifConfReadyStatuses))]) {
+				return
+			}
+		}
+		// nothing to advance partially: fall through to a request
+	case p < 34:
 		kind := verifConfPick(r, []string{"pre-download", "become-operational"})
 		T := []string{verifConfPick(r, verifConfSnaps)}
 		chg := s.state.NewChange(kind, "...")
@@ -621,9 +696,9 @@ func (t verifConfTmpl) args(x string) []string {
 func (s *verifConfSuite) runPairs(c *C, newHistory func(status map[string]string)) int {
 	tm := verifConfTemplates()
 	n := 0
-	variants := []string{"plain", "progress", "mutated"}
+	variants := []string{"plain", "partial", "progress", "mutated"}
 	if os.Getenv("VERIF_PAIRS") == "plain" {
-		variants = []string{"plain", "mutated"}
+		variants = []string{"plain", "partial", "mutated"}
 	}
 	for _, first := range tm {
 		for _, second := range tm {
@@ -685,6 +760,15 @@ func (s *verifConfSuite) runPairs(c *C, newHistory func(status map[string]string
 							S = s.snapsWith(func(v string) bool { return v == "active" })
 						}
 						s.doRequest(c, first.op, S, 0, nil)
+					}
+					if variant == "partial" {
+						// the lane of the first request's snap finishes while its change keeps running
+						// (multi-snap changes; single refresh: only check-rerefresh is left), then the
+						// second request comes
+						live := s.live()
+						if first.nosnp || len(live) == 0 || !s.partial(c, live[0], x, verifConfReadyStatuses[n%len(verifConfReadyStatuses)]) {
+							continue
+						}
 					}
 					if variant == "progress" {
 						live := s.live()
